@@ -8,6 +8,7 @@ import (
 	"github.com/lindb/lindb/series/metric"
 	"github.com/lindb/lindb/series/tag"
 	"github.com/lindb/lindb/sql/stmt"
+	"github.com/lindb/lindb/tsdb"
 )
 
 // C10 (predicate tree -> posting-list algebra): the real tag-value lookup operator and the real series
@@ -199,7 +200,7 @@ func verifC10Filter() {
 	lookup := &tagValuesLookup{executeCtx: storageCtx, metaDB: verifMetaDB{}}
 	verifAssert(lookup.Execute() == nil, "tag value lookup succeeds")
 	shardCtx := flow.NewShardExecuteContext(storageCtx)
-	filtering := &seriesFiltering{executeCtx: shardCtx, indexDB: verifIndexDB{}}
+	filtering := NewSeriesFiltering(shardCtx, verifShard{}).(*seriesFiltering)
 	verifAssert(filtering.Execute() == nil, "series filtering succeeds")
 	got := shardCtx.SeriesIDsAfterFiltering
 	n := 0
@@ -221,8 +222,13 @@ func verifC10FilterReach() {
 	lookup := &tagValuesLookup{executeCtx: storageCtx, metaDB: verifMetaDB{}}
 	_ = lookup.Execute()
 	shardCtx := flow.NewShardExecuteContext(storageCtx)
-	filtering := &seriesFiltering{executeCtx: shardCtx, indexDB: verifIndexDB{}}
+	filtering := NewSeriesFiltering(shardCtx, verifShard{}).(*seriesFiltering)
 	_ = filtering.Execute()
 	verifObserve("selected", int(shardCtx.SeriesIDsAfterFiltering.GetCardinality()), shardCtx.SeriesIDsAfterFiltering.Contains(2))
 	verifAssert(verifNondetBool("flag") && shardCtx.SeriesIDsAfterFiltering.GetCardinality() != 2, "reach")
 }
+
+// the operator is created through its constructor (whatever state it sets up is there)
+type verifShard struct{ tsdb.Shard }
+
+func (verifShard) IndexDB() index.MetricIndexDatabase { return verifIndexDB{} }
